@@ -70,8 +70,8 @@ class CtlGen:
                 cur = [st]
                 layout.append(line_no)
         lines.append('; '.join(cur) + (';' if r.chance(1, 2) else ''))
-        # the parser numbers lines from 0 when it is given a text directly (no preprocessor, no #line marker)
-        return '\n'.join(lines), [x - 1 for x in layout]
+        # the parser numbers lines from 1, also when it is given a text directly (no preprocessor, no #line marker)
+        return '\n'.join(lines), layout
 
     def actions(self):
         r = self.r
